@@ -192,6 +192,9 @@ func flatPairs(n *Node, v Val, keyOf func(Field) string, out url.Values, order *
 	if n.Kind != KStruct || (v.T != "map" && !v.IsNil()) {
 		return fmt.Errorf("flat sources need a struct record")
 	}
+	if dup := flatKeyCollision(n, keyOf, map[string]bool{}); dup != "" {
+		return fmt.Errorf("key %q is used twice in the flat namespace", dup)
+	}
 	for _, kv := range v.M {
 		for i := range n.Fields {
 			f := n.Fields[i]
@@ -211,6 +214,14 @@ func flatPairs(n *Node, v Val, keyOf func(Field) string, out url.Values, order *
 					return err
 				}
 			case fn.Kind == KSlice:
+				if len(kv.V.L) == 0 {
+					return fmt.Errorf("a flat source cannot express an empty list")
+				}
+				if len(kv.V.L) == 1 {
+					if s, _ := scalarString(kv.V.L[0]); strings.TrimSpace(s) == "" {
+						return fmt.Errorf("a flat source cannot express a one-element list whose element is empty")
+					}
+				}
 				for _, e := range kv.V.L {
 					s, ok := scalarString(e)
 					if !ok {
@@ -230,6 +241,27 @@ func flatPairs(n *Node, v Val, keyOf func(Field) string, out url.Values, order *
 		}
 	}
 	return nil
+}
+
+// flatKeyCollision reports a key that two fields (at any nesting depth) would share in a flat source.
+func flatKeyCollision(n *Node, keyOf func(Field) string, seen map[string]bool) string {
+	for _, f := range n.Fields {
+		k := keyOf(f)
+		if seen[k] {
+			return k
+		}
+		seen[k] = true
+		fn := f.Node
+		for fn.Kind == KPtr {
+			fn = fn.Elem
+		}
+		if fn.Kind == KStruct {
+			if d := flatKeyCollision(fn, keyOf, seen); d != "" {
+				return d
+			}
+		}
+	}
+	return ""
 }
 
 // flatSpecIn is the record as a flat source presents it to the schema: a single
